@@ -302,6 +302,14 @@ macro_rules! chain {
             _ => Out::Unsup,
         }
     };
+    (@ [n13 $n:expr; $($rest:tt)*] $cb:ident [$($acc:tt)*]) => {
+        match $n {
+            1 => chain!(@ [$($rest)*] $cb [$($acc)* 1]),
+            2 => chain!(@ [$($rest)*] $cb [$($acc)* 2]),
+            3 => chain!(@ [$($rest)*] $cb [$($acc)* 3]),
+            _ => Out::Unsup,
+        }
+    };
     (@ [n23 $n:expr; $($rest:tt)*] $cb:ident [$($acc:tt)*]) => {
         match $n {
             2 => chain!(@ [$($rest)*] $cb [$($acc)* 2]),
